@@ -67,7 +67,30 @@ def extract(repo):
            "/-- `let last = [first +] text[c..d].chars().count()` -/",
            "def lastSlice : Bound × Bound := (%s, %s)" % (BOUND[m.group(4)], BOUND[m.group(5)]),
            "def lastAddsFirst : Bool := %s" % ("true" if m.group(3) else "false"), "",
-           "end SkimModel.Generated.AndMerge", ""]
+           ]
+    # AndEngine::match_item / OrEngine::match_item: the control flow around the leaf results
+    i_or, i_and = andor.find("impl MatchEngine for OrEngine"), andor.find("impl MatchEngine for AndEngine")
+    if i_or < 0 or i_and < 0:
+        raise R.Unsupported("andor.rs: impl MatchEngine for OrEngine / AndEngine not found")
+    ob = norm(R.fn_body(andor[i_or:], "match_item")[0])
+    ab = norm(R.fn_body(andor[i_and:], "match_item")[0])
+    mo = re.fullmatch(r"for engine in &self\.engines \{ let result = engine\.match_item\(Arc::clone\(&item\)\); "
+                      r"if result\.is_(some|none)\(\) \{ return result; \} \} None", ob)
+    if not mo:
+        raise R.Unsupported("OrEngine::match_item: not `for engine { r = engine.match_item(..); if r.is_some() { return r; } } None`")
+    ma = re.fullmatch(r"let mut results = vec!\[\]; for engine in &self\.engines \{ "
+                      r"(?:let result = engine\.match_item\(Arc::clone\(&item\)\)(\?)?; results\.push\(result\);|"
+                      r"if let Some\(result\) = engine\.match_item\(Arc::clone\(&item\)\) \{ results\.push\(result\); \}) \} "
+                      r"(?:if results\.is_empty\(\) \{ None \} else \{ Some\(self\.merge_matched_items\(results, &item\.text\(\)\)\) \}|"
+                      r"(Some\(self\.merge_matched_items\(results, &item\.text\(\)\)\)))", ab)
+    if not ma or ("results.push(result);" in ab and "let result = engine" in ab and not ma.group(1)):
+        raise R.Unsupported("AndEngine::match_item: control flow not understood")
+    out += ["/-- `OrEngine::match_item` returns the result of the first alternative that matches (else `None`) -/",
+            "def orReturnsFirstHit : Bool := %s" % ("true" if mo.group(1) == "some" else "false"), "",
+            "/-- `AndEngine::match_item`: a term that does not match ends the conjunction with `None` (`?`); no term at all is `None` -/",
+            "def andStopsOnMiss : Bool := %s" % ("true" if ma.group(1) else "false"),
+            "def andEmptyIsNone : Bool := %s" % ("false" if ma.group(2) else "true"), "",
+            "end SkimModel.Generated.AndMerge", ""]
     return "\n".join(out)
 
 
